@@ -90,7 +90,7 @@ func Build(name string) *Scenario {
 		if _, ok := p["intruder"]; ok {
 			sc.Intruder = "after"
 		}
-		sc.Monitors = append(sc.Monitors, monStreamPrefix, monCiphertextOnly, monExclusive, monIntruder)
+		sc.Monitors = append(sc.Monitors, monStreamPrefix, monCiphertextOnly, monExclusive, monIntruder, monPairing)
 		sc.Final = append(sc.Final, finalTransfer, finalSessions)
 	case "rdv":
 		// C17 at the relay: the same consecutive sessions as "sess", judged
@@ -205,6 +205,32 @@ func monExclusive(w *World) {
 
 // monIntruder: a client that only knows the original passphrase is not
 // admitted after the pairing.
+// monPairing: a side stores the peer's static key (and with it moves to the
+// key-derived rendezvous and the KK pattern) only in a handshake that it
+// completes.
+func monPairing(w *World) {
+	w.mu.Lock()
+	defer w.mu.Unlock()
+	for _, side := range []struct {
+		name string
+		at   []int
+		list []*Session
+	}{{"client", w.storedAtC, w.sessC}, {"server", w.storedAtS, w.sessS}} {
+		for _, i := range side.at {
+			if i < 0 || i >= len(side.list) {
+				continue
+			}
+			ss := side.list[i]
+			if !ss.HsDone && ss.HsErr != "" && !strings.HasPrefix(ss.HsErr, "not needed") {
+				w.fail("pairing/key-stored-by-failed-handshake/"+side.name,
+					"%s connection #%d: the peer's static key was stored although this side's handshake failed (%s); the side has moved to the key-derived rendezvous on the strength of a handshake it never completed",
+					side.name, i, ss.HsErr)
+				return
+			}
+		}
+	}
+}
+
 func monIntruder(w *World) {
 	w.mu.Lock()
 	defer w.mu.Unlock()
@@ -359,9 +385,18 @@ func finalSessions(w *World, x *vrt.Exec) {
 	}
 	if w.sc.MaxVer >= 2 {
 		for _, side := range [][]*Session{w.sessC, w.sessS} {
-			first := firstC
-			if side[0].Side == "server" {
-				first = firstS
+			// the pairing is the first connection of this side whose XX
+			// handshake completed (under faults that need not be the
+			// first session that went on to complete its transfer)
+			var first *Session
+			for _, s := range side {
+				if s.HsDone && s.Pattern == "XX" {
+					first = s
+					break
+				}
+			}
+			if first == nil {
+				continue
 			}
 			for _, s := range side {
 				if s.Index <= first.Index || s.Conn == nil {
